@@ -827,6 +827,41 @@ func wgRunOne(b *BatchResult, prop string, seed, run uint64, p wgParams) {
 	} else {
 		b.Mix["ref_not_wellfounded"]++
 	}
+	// reach probes: rare shapes the properties name explicitly
+	if c.ref.wellFounded() {
+		inf, wcInf, multi := false, false, false
+		for _, n := range c.ref.order {
+			for _, w := range n.W {
+				if w == refInfinite {
+					inf = true
+					if len(n.Wc) > 0 {
+						wcInf = true
+					}
+				}
+			}
+			if n.kind == rkOp && (n.label == KInter || n.label == KExcl) {
+				for _, g := range n.operands {
+					if len(g) >= 2 {
+						multi = true
+					}
+				}
+			}
+		}
+		if inf {
+			b.Probes["wellfounded_models_with_infinite_weight"]++
+		}
+		if wcInf {
+			b.Probes["wellfounded_models_with_wildcard_on_or_behind_tuple_cycle"]++
+		}
+		if multi {
+			b.Probes["wellfounded_models_with_multi_edge_operand_under_and_or_butnot"]++
+		}
+		if n := c.ref.cyclicSCCs(); n >= 2 {
+			b.Probes["wellfounded_models_with_two_or_more_tuple_cycles_regions"]++
+		} else if c.ref.interlocking() {
+			b.Probes["wellfounded_models_with_interlocking_cycles"]++
+		}
+	}
 	b.Mix["canon_"+c.canon.verdict()]++
 	if c.canon.ErrClass != "" {
 		b.Mix["canon_err_"+c.canon.ErrClass]++
